@@ -5,10 +5,11 @@ chaos thread (part ``threads``); the environment owns the RNG seam, the
 caches, the backend switch and the schedule.
 
 Workload per run: a curve -- secp256k1, another of the 27 catalogued ones, or
-a toy curve built from the choices (``btcsim.gen.curves``: prime p <= 251,
-all points enumerated by the reference, largest prime-order subgroup, kept
-only when n > 4*sqrt(p)) -- then 3-40 operations (fewer on the big curves,
-whose naive reference costs milliseconds per multiplication) among
+a toy curve built from the choices (``btcsim.gen.curves``: prime p <= 251 with
+3, 5 and 7 weighted, all points enumerated by the reference, largest
+prime-order subgroup, kept when the ``Curve`` constructor accepts it; a
+refusal is a probe, never asserted) -- then 3-40 operations (fewer on the big
+curves, whose naive reference costs milliseconds per multiplication) among
 ``mult``, ``double_mult_var``, ``multi_mult_var`` (term counts on both sides
 of ``BOS_COSTER_THRESHOLD``, zero scalars, repeated points, infinity among
 the points, cancelling sums), ``PreparedPoint.mult``, ``mod_inv(_var)``,
@@ -17,7 +18,9 @@ the points, cancelling sums), ``PreparedPoint.mult``, ``mod_inv(_var)``,
 point codec, refusals (off-curve / malformed points, malformed curves), with
 scalars from {0, 1, n-1, n, n+1, k*n, k*n+-1, negative, > 2^256, small,
 uniform} and points from {G, INF, uniform, an earlier result, minus an
-earlier result}. Points handed to the library are points of the subgroup.
+earlier result}: ``alias.INF`` -- (5, 0) whatever the field -- reaches every
+entry point on every curve, results that landed on infinity are fed back in.
+Points handed to the library are points of the subgroup.
 
 Perturbations between operations (plan ``faults``): cache clear (one / all),
 caches shrunk to maxsize 1-3 for the run (eviction), backend flip, RNG mode
@@ -168,7 +171,8 @@ class W:
         return self.pool[i]
 
     def point(self, label: str, inf_ok: bool = True) -> RefPoint:
-        kind = self.ch.weighted([("uniform", 5), ("G", 3), ("neg-earlier", 2), ("earlier", 1), ("INF", 1)], label + ".class")
+        # infinity is spelled in band, (5, 0): on the fields where 5 or 7 is no element it gets a weight of its own
+        kind = self.ch.weighted([("uniform", 5), ("G", 3), ("neg-earlier", 2), ("earlier", 1), ("INF", 4 if self.p <= 7 else 2)], label + ".class")
         if kind == "INF" and inf_ok:
             return None
         if kind in ("earlier", "neg-earlier") and self.results:
@@ -178,17 +182,27 @@ class W:
                 return Q
         return self.ref.G if kind == "G" else self.uniform_point(label)
 
+    def off_curve(self, label: str) -> tuple[int, int] | None:
+        """A pair of field elements, y != 0, that is no point; None where the tiny field has none."""
+        p = self.p
+        x0, y0 = self.ch.draw(p, label + ".x"), self.ch.draw(p - 1, label + ".y")
+        for i in range(p if p < 64 else 4):  # half of all pairs are off the curve: a few steps find one
+            for j in range(p - 1 if p < 64 else 4):
+                Q = ((x0 + i) % p, 1 + (y0 + j) % (p - 1))
+                if not self.ref.on_curve(Q):
+                    return Q
+        return None
+
     def bad_point(self, label: str) -> tuple[str, Any]:
         """An operand that is no point of the curve."""
         ch, p = self.ch, self.p
         kind = ch.pick(["off-curve", "y-above", "y-negative", "arity-3", "arity-1", "list", "x-range"], label + ".class")
         x, y = self.uniform_point(label)  # type: ignore[misc]
-        if kind == "off-curve":
-            while self.ref.on_curve((x, y)):
-                x, y = ch.draw(p, label + ".x"), 1 + ch.draw(p - 1, label + ".y")
-            return kind, (x, y)
-        return kind, {
-            "y-above": (x, y + p), "y-negative": (x, y - p), "arity-3": (x, y, 1), "arity-1": (x,), "list": [x, y],
+        off = self.off_curve(label) if kind == "off-curve" else None
+        if off is not None:
+            return kind, off
+        return "y-above" if kind == "off-curve" else kind, {
+            "off-curve": (x, y + p), "y-above": (x, y + p), "y-negative": (x, y - p), "arity-3": (x, y, 1), "arity-1": (x,), "list": [x, y],
             "x-range": ch.pick([(x + p, y), (x - p, y)], label + ".xr"),
         }[kind]
 
@@ -332,16 +346,15 @@ def _op_codec(w: W) -> Op:
     if shape == "hybrid-wrong-parity":
         return "codec-hybrid", lambda ec: point_from_octets(_sec(w, Q, 7 - Q[1] % 2), ec, hybrid=True), ("refuse",)
     # octets of something that is no point: a compressed x with no y, or an uncompressed pair off the curve
-    x, y = Q
+    # (on a tiny field every x may have a y and every pair be a point: then a y that is no field element)
     if ch.draw(2, "codec.off.compressed"):
-        x = ch.draw(w.p, "codec.off.x")
-        while _has_y(w, x):
-            x = (x + 1) % w.p
-        prefix = 2 + ch.draw(2, "codec.off.parity")
-        return "codec-refusal", lambda ec: point_from_octets(_sec(w, (x, 1), prefix), ec), ("refuse",)
-    while w.ref.on_curve((x, y)):
-        x, y = ch.draw(w.p, "codec.off.x"), 1 + ch.draw(w.p - 1, "codec.off.y")
-    return "codec-refusal", lambda ec: point_from_octets(_sec(w, (x, y), 4), ec), ("refuse",)
+        x0 = ch.draw(w.p, "codec.off.x")
+        x = next((x for x in ((x0 + i) % w.p for i in range(min(w.p, 64))) if not _has_y(w, x)), None)
+        if x is not None:
+            prefix = 2 + ch.draw(2, "codec.off.parity")
+            return "codec-refusal", lambda ec: point_from_octets(_sec(w, (x, 1), prefix), ec), ("refuse",)
+    B = w.off_curve("codec.off") or (Q[0], w.p)
+    return "codec-refusal", lambda ec: point_from_octets(_sec(w, B, 4), ec), ("refuse",)
 
 
 def _has_y(w: W, x: int) -> bool:
@@ -354,6 +367,8 @@ def _op_refusal(w: W) -> Op:
     ch = w.ch
     kind, B = w.bad_point("bad")
     api = ch.pick(["mult", "double-H", "double-Q", "multi", "prepared", "bytes_from_point"], "bad.api")
+    if api in ("prepared", "bytes_from_point") and ch.chance(1, 4, "bad.infinity"):
+        kind, B = "infinity", INF  # documented: infinity has no tables to prepare and no octets
     m, G = w.scalar("bad.m"), _lib(w.ref.G)
     w.ctx.log("op", "refusal", kind, api, B)
     if api == "multi":
@@ -387,10 +402,7 @@ def _op_bad_curve(w: W) -> Op:
     elif kind == "b-range":
         b = ch.pick([b + p, b - p, -1, p], "badcurve.b")
     elif kind == "G-off-curve":
-        y = G[1] % (p - 1) + 1
-        while w.ref.on_curve((G[0], y)):
-            y = y % (p - 1) + 1
-        G = (G[0], y)
+        G = (G[0], next((y for y in range(1, min(p, 64)) if not w.ref.on_curve((G[0], y))), p))
     elif kind == "G-infinity":
         G = INF
     elif kind == "n-not-prime":
@@ -649,7 +661,7 @@ CHECKS = {
             "fault, switch) sequence; non-trivial = at least one perturbation fired or >= 2 context switches."
         ),
         "assumptions": [
-            "toy curves are kept only when n > 4*sqrt(p) (where SEC 1's cofactor formula is exact); points handed over are points of the prime-order subgroup",
+            "a toy curve is kept when the reference finds a prime-order subgroup and Curve(...) accepts it (a refusal is a probe); points handed over are points of that subgroup",
             "the for-all over curves and scalars is sampled, not decided; multi-scalar term counts <= 2*BOS_COSTER_THRESHOLD",
             "pre-emption only at first-visit line boundaries of btclib frames; calls into C (bindings, lru_cache, pow) are atomic",
         ],
